@@ -301,6 +301,17 @@ func (ba *flatBlobAccess) GetFromComposite(ctx context.Context, parentDigest, ch
 		}
 		ba.refreshesBlobsDurationGetFromComposite.Observe(time.Since(refreshStart).Seconds())
 		ba.refreshesBlobsGetFromComposite.Observe(1)
+	} else {
+		// The lock was released while slicing. As block indices
+		// are relative to the oldest block, the location of the
+		// parent object obtained previously may be stale. Look
+		// it up once more.
+		parentLocation, err = ba.keyLocationMap.Get(parentKey)
+		if err != nil {
+			ba.lock.Unlock()
+			bChild.Discard()
+			return buffer.NewBufferFromError(util.StatusWrap(err, "Failed to look up parent blob after slicing"))
+		}
 	}
 
 	// Create key-location map entries for each of the slices. This
